@@ -168,6 +168,12 @@ func gen(r *hx.Rng, tier string) Case {
 	if r.Chance(1, 5) {
 		c.Coalesce = []string{"doubleclose", "raw"}[r.Intn(2)]
 	}
+	switch r.Pick(6, 2, 2) {
+	case 1:
+		c.Comp = "zstd"
+	case 2:
+		c.Comp = "exttoc"
+	}
 	return c
 }
 
@@ -283,6 +289,11 @@ func corpus() []Case {
 		{Files: base, ChunkSize: 50, Level: 9, Ops: []Mut{{Op: "badlink", J: 2, S: "bad", T: "nowhere"}}, BadNeighbour: true, Sched: all},
 		{Files: base, ChunkSize: 50, Level: 9, Ops: []Mut{{Op: "chunkfirst"}}},
 		{Files: nil, ChunkSize: 50, Level: 9, NullEntries: true},
+		// zstd:chunked and external-TOC blobs (builder output, mutated TOC, trailing bytes after the TOC)
+		{Files: base, ChunkSize: 64, Level: 1, Comp: "zstd", Sched: all},
+		{Files: base, ChunkSize: 50, MinChunkSize: 1000, Level: 9, Comp: "zstd", Ops: []Mut{{Op: "dropdir", I: 0}, {Op: "root", J: 0, S: "./", N: 1}}, Trail: 700, TrailByte: " "},
+		{Files: base, ChunkSize: 64, Level: 9, Comp: "exttoc", Sched: all},
+		{Files: base, ChunkSize: 50, MinChunkSize: 1000, Level: 1, Comp: "exttoc", Ops: []Mut{{Op: "dup", I: 0, J: 3, N: 3}}, Trail: 9000, TrailByte: "\n"},
 		{Files: base, ChunkSize: 0, Level: 9, Ops: []Mut{{Op: "lastsize", I: 1}, {Op: "nochunkdigest", I: 1}}},
 	}
 }
